@@ -20,7 +20,7 @@ type Ref struct {
 
 // refPool builds the reference pool of a run: sentinels, every visible node
 // of e0, and a few independently generated and near-equal trees.
-func refPool(t *tape.Tape, g *gen.Gen, spec *gen.Node, e0 error, extra int) []Ref {
+func refPool(t *tape.Tape, g *gen.Gen, b *gen.Builder, spec *gen.Node, e0 error, extra int) []Ref {
 	var refs []Ref
 	for i, s := range gen.Sentinels {
 		refs = append(refs, Ref{Name: gen.SentinelNames[i], Err: s, Native: i < 11})
@@ -39,7 +39,7 @@ func refPool(t *tape.Tape, g *gen.Gen, spec *gen.Node, e0 error, extra int) []Re
 		default:
 			rs = cloneSpec(spec) // an equal but distinct object
 		}
-		refs = append(refs, Ref{Name: fmt.Sprintf("gen%d:%s", i, rs.Shape()), Err: gen.Build(rs), Spec: rs})
+		refs = append(refs, Ref{Name: fmt.Sprintf("gen%d:%s", i, rs.Shape()), Err: b.Build(rs), Spec: rs})
 	}
 	return refs
 }
